@@ -13,7 +13,8 @@ def ode_taylor(ctx, derivs, x0, y0, tol_prec, n):
     y = y0
     orig = ctx.prec
     try:
-        ctx.prec = orig*(1+n)
+        # the n-th difference of the samples cancels n*tol_prec bits
+        ctx.prec = max(orig, tol_prec)*(1+n)
         # Use n steps with Euler's method to get
         # evaluation points for derivatives
         for i in range(n):
@@ -43,8 +44,10 @@ def ode_taylor(ctx, derivs, x0, y0, tol_prec, n):
     # XXX: do this right for zeros
     radius = ctx.one
     for ts in ser:
-        if ts[-1]:
-            radius = min(radius, ctx.nthroot(tol/abs(ts[-1]), n))
+        # (the last coefficient alone may vanish by symmetry)
+        for k in (n, n-1):
+            if k > 0 and ts[k]:
+                radius = min(radius, ctx.nthroot(tol/abs(ts[k]), k))
     radius /= 2  # XXX
     return ser, x0+radius
 
